@@ -159,6 +159,7 @@ inductive Body where
   | badJson (data : Bytes)      -- json.Unmarshal failed
   | transfer (ts : List Target) -- the decoded map (keys pairwise distinct)
   | refund (amount : Option Nat) (minerId : Nat)  -- MinerRefundData: ParseUint(Amount) (none = error), FromHex(MinerId)
+  | addStake (minerId : Nat) (delta : Nat)        -- types.Miner payload of a miner-add transaction: id, stake
   | observed (ok : Bool) (ev : Bool) (msg : Bytes) (sets : List (Addr × Nat × Nat))
       -- correspondence only: what an uninterpreted executor was observed to do (status, message,
       -- balance and nonce of the watched addresses afterwards)
@@ -178,11 +179,12 @@ structure Tx where
 
 def typOperatorEvent : Nat := 100
 def typMinerRefund : Nat := 4
+def typMinerAdd : Nat := 5
 def typETHTX : Nat := 188
 def typContract : Nat := 200
 def isContractTx (t : Nat) : Bool := t == typETHTX || t == typContract
 /-- transaction types with a registered executor that this model does not interpret -/
-def isOpaqueTyp (t : Nat) : Bool := t == 2 || t == 5 || t == 6 || t == 7 || t == 188 || t == 200
+def isOpaqueTyp (t : Nat) : Bool := t == 2 || t == 6 || t == 7 || t == 188 || t == 200
 
 /-- `types.Transactions.Less` (the `panic("equal hash")` branch is `false` here; the driver
     refuses such lists, see `hasEqualHashPair`). -/
@@ -340,6 +342,28 @@ def execRefund (height : Nat) (tx : Tx) (s : St) (q : List (Nat × Addr × Nat))
   | .badJson _ => (s, false, q)
   | _ => (s, false, q)
 
+/-- `minerAddExecutor.Execute` → `MinerManager.AddStake`: the stake in wei is
+    `Float64ToBigInt(float64(delta))` (bit-exact float), the miner is looked up as proposer first,
+    then as validator, the uint64 stake sum wraps, a stake strictly above the minimum resets the
+    status to normal, `UpdateMiner` rewrites stake / account / status. -/
+def execAddStake (tx : Tx) (s : St) : St × Bool :=
+  match tx.body with
+  | .addStake mid delta =>
+    if delta = 0 then (s, true) else
+    let stakeWei := Rangers.Model.RewardFloat.float64ToBigInt (Rangers.Model.RewardFloat.ofNat delta)
+    if s.bal tx.src < stakeWei then (s, false)
+    else
+      let pick := fun (t : Nat) => s.miners.find? (fun m => m.id == mid && m.typ == t && m.alive)
+      match (pick 1).orElse (fun _ => pick 0) with
+      | none => (s, false)
+      | some m =>
+        let st := (m.stake + delta) % 18446744073709551616
+        let status := if (m.typ = 1 ∧ st > 2000) ∨ (m.typ = 0 ∧ st > 400) then 0 else m.status
+        let s1 := subBal s tx.src stakeWei
+        ({ s1 with miners := s1.miners.map (fun r =>
+            if r.id = mid ∧ r.typ = m.typ ∧ r.alive then { r with stake := st, status := status } else r) }, true)
+  | _ => (s, false)
+
 /-- the executors the model interprets; `none` for every other type -/
 def execModelled (height : Nat) (tx : Tx) (s : St) (q : List (Nat × Addr × Nat)) :
     Option (St × Bool × Bytes × List (Nat × Addr × Nat)) :=
@@ -349,13 +373,16 @@ def execModelled (height : Nat) (tx : Tx) (s : St) (q : List (Nat × Addr × Nat
   else if tx.typ = typMinerRefund then
     let r := execRefund height tx s q
     some (r.1, r.2.1, [], r.2.2)       -- message text of miner transactions is not modelled
+  else if tx.typ = typMinerAdd then
+    let r := execAddStake tx s
+    some (r.1, r.2, [], q)
   else none
 
 /-- one iteration of the loop in `VMExecutor.Execute` (situation ≠ "casting") -/
 def stepTx (env : Env) (f : Flags) (height : Nat) (L : Loop) (tx : Tx) : Loop :=
   if tx.typ = 0 then L else
   let s0 := if f.p006 && !f.p007 then incNonce L.st tx.src else L.st
-  if tx.typ = typOperatorEvent ∨ tx.typ = typMinerRefund then
+  if tx.typ = typOperatorEvent ∨ tx.typ = typMinerRefund ∨ tx.typ = typMinerAdd then
     let (s1, ok1, msg1) := beforeExecute env f tx s0
     if ok1 then
       match execModelled height tx s1 L.refunds with
